@@ -33,9 +33,17 @@ class ParserModel:
         self.types = frozenset(token_types)
         self.budget = budget
         self.module_sets: dict[str, frozenset[str]] = {}
+        # every module-level constant of parser.py that folds to a collection of TokenType members (VALUE_TOKENS,
+        # EXPRESSION_OPERATORS and whatever a refactoring hoists next to them)
+        for st in self.pm.tree.body:
+            tgt = st.targets[0] if isinstance(st, ast.Assign) and len(st.targets) == 1 else (st.target if isinstance(st, ast.AnnAssign) else None)
+            if isinstance(tgt, ast.Name) and getattr(st, "value", None) is not None:
+                v = project.try_fold(self.pm, st.value)
+                if isinstance(v, (set, frozenset, tuple, list)) and v and all(isinstance(x, EnumRef) for x in v):
+                    self.module_sets[tgt.id] = frozenset(x.member for x in v)
         for name in ("VALUE_TOKENS", "EXPRESSION_OPERATORS"):
-            v = project.const(self.pm, name)
-            self.module_sets[name] = frozenset(x.member for x in v if isinstance(x, EnumRef))
+            if name not in self.module_sets:
+                raise AnalysisError(f"parser.py: {name} did not fold to a set of TokenType members")
         self.cfgs: dict[str, CFG] = {}
         self._must: dict[tuple[str, frozenset[str]], bool] = {}
         self._truthy: dict[str, bool] = {}
